@@ -237,7 +237,8 @@ sanitize_registry = {
         # Replace CONVERT argument in OPEN calls
         'CONVERT_ENDIAN': PPRule(
             match=re.compile((r'(?P<ws>^\s*)(?P<pre>OPEN\s*\(.*?)'
-                              r'(?P<convert>,?\s*CONVERT=[\'\"](?:BIG|LITTLE)_ENDIAN[\'\"]\s*)'
+                              r'(?P<convert>,\s*CONVERT=[\'\"](?:BIG|LITTLE)_ENDIAN[\'\"]\s*|'
+                              r'\s*CONVERT=[\'\"](?:BIG|LITTLE)_ENDIAN[\'\"]\s*,?\s*)'
                               r'(?P<post>.*?$)'), re.I),
             replace=r'\g<ws>\g<pre>\g<post>', postprocess=reinsert_convert_endian),
 
